@@ -161,7 +161,7 @@ fn limb_vals(rng: &mut Rng, cnt: usize, b: i64) -> Vec<i128> {
     }).collect()
 }
 
-fn gen_vec(rng: &mut Rng, tier: &str, out: &mut Vec<Rec>) {
+pub fn gen_vec(rng: &mut Rng, tier: &str, out: &mut Vec<Rec>) {
     let reps = if tier == "thorough" { 12000 } else { 1500 };
     for it in 0..reps {
         let code = 8101 + rng.below(10) as i64;
